@@ -481,6 +481,10 @@ func c17Body(o c17Opts) func() {
 }
 
 func TestVerif_C17(t *testing.T) {
+	if os.Getenv("VERIF_SWEEPLOG") != "" {
+		sweepLog = map[string]int{}
+		defer func() { fmt.Printf("SWEEPLOG %v\n", sweepLog) }()
+	}
 	mk := func(o c17Opts, b, bt int) bScenario {
 		return bScenario{Name: o.name, Bound: b, BoundT: bt, Body: c17Body(o), Live: true}
 	}
